@@ -185,3 +185,30 @@ Proof.
   - apply IH. apply R_modify. exact H.
   - apply IH. apply R_save; [apply R_flag; exact H|apply ND].
 Qed.
+
+(* an operation that leaves the contents of the stand-off files as they are (exporting a copy
+   elsewhere, naming files) flags nothing and unflags nothing *)
+Lemma fcontent_eqb_refl c : fcontent_eqb c c = true.
+Proof.
+  assert (J : forall j, json_eqb j j = true).
+  { fix IH 1. intros [|b|l|s|l|m]; cbn [json_eqb]; try apply str_eqb_refl; try reflexivity.
+    - destruct b; reflexivity.
+    - induction l as [|x l IHl]; [reflexivity|]. rewrite IH, IHl. reflexivity.
+    - induction m as [|[k v] m IHm]; [reflexivity|]. cbn [fst snd]. rewrite str_eqb_refl, IH, IHm. reflexivity. }
+  destruct c; cbn; [apply str_eqb_refl|apply J].
+Qed.
+
+Lemma filter_unchanged base : forall l,
+  (forall p, In p l -> file_get base (fst p) = Some (snd p)) ->
+  filter (fun p => match file_get base (fst p) with Some c => negb (fcontent_eqb c (snd p)) | None => true end) l = [].
+Proof.
+  induction l as [|p l IH]; intros H; [reflexivity|]. cbn [filter].
+  rewrite (H p (or_introl eq_refl)), fcontent_eqb_refl. cbn [negb]. apply IH. intros q Hq. apply H. right. exact Hq.
+Qed.
+
+Theorem export_keeps_flags cur st : NoDup (map fst cur) -> mark cur cur st = st.
+Proof.
+  intros ND. unfold mark. destruct st as [dirty disk]. cbn [fs_dirty fs_disk].
+  rewrite filter_unchanged; [cbn [map]; rewrite app_nil_r; reflexivity|].
+  intros [f c] Hin. apply file_get_first; assumption.
+Qed.
